@@ -133,6 +133,7 @@ struct BatchStats {
     runs: u64,
     sweep_values: u64,
     sweep_cases: u64,
+    lattice_cases: u64,
     legs: u64,
     legs_faulted: u64,
     legs_fault_free: u64,
@@ -157,6 +158,7 @@ impl BatchStats {
         self.runs += o.runs;
         self.sweep_values += o.sweep_values;
         self.sweep_cases += o.sweep_cases;
+        self.lattice_cases += o.lattice_cases;
         self.legs += o.legs;
         self.legs_faulted += o.legs_faulted;
         self.legs_fault_free += o.legs_fault_free;
@@ -201,9 +203,24 @@ impl BatchStats {
     }
 }
 
-fn run_one(base: u64, index: u64, known: &KnownFindings, st: &mut BatchStats, stop_after: &AtomicU64, sweep: bool) {
-    let (val, cases) = if sweep { sweep::sweep_cases(base, index, &mut st.gen) } else { generate_run(base, index, &mut st.gen) };
-    if sweep {
+#[derive(Clone, Copy, PartialEq, Eq)]
+enum Kind {
+    Random,
+    Sweep,
+    ThinLattice,
+}
+
+fn run_one(base: u64, index: u64, known: &KnownFindings, st: &mut BatchStats, stop_after: &AtomicU64, kind: Kind) {
+    let (val, cases) = match kind {
+        Kind::Random => generate_run(base, index, &mut st.gen),
+        Kind::Sweep => sweep::sweep_cases(base, index, &mut st.gen),
+        Kind::ThinLattice => sweep::thin_lattice_cases(base, index, &mut st.gen),
+    };
+    let sweep = kind != Kind::Random;
+    if kind == Kind::ThinLattice {
+        st.lattice_cases += cases.len() as u64;
+    }
+    if kind == Kind::Sweep {
         st.sweep_values += 1;
         st.sweep_cases += cases.len() as u64;
     }
@@ -275,10 +292,10 @@ fn run_one(base: u64, index: u64, known: &KnownFindings, st: &mut BatchStats, st
 }
 
 fn run_batch(base: u64, runs: u64, workers: usize, known: &KnownFindings) -> BatchStats {
-    run_batch_kind(base, runs, workers, known, false)
+    run_batch_kind(base, runs, workers, known, Kind::Random)
 }
 
-fn run_batch_kind(base: u64, runs: u64, workers: usize, known: &KnownFindings, sweep: bool) -> BatchStats {
+fn run_batch_kind(base: u64, runs: u64, workers: usize, known: &KnownFindings, kind: Kind) -> BatchStats {
     let stop_after = Arc::new(AtomicU64::new(u64::MAX));
     let known = Arc::new(known.clone());
     let mut handles = Vec::new();
@@ -295,7 +312,7 @@ fn run_batch_kind(base: u64, runs: u64, workers: usize, known: &KnownFindings, s
                         if i > stop_after.load(Ordering::Relaxed) {
                             break;
                         }
-                        run_one(base, i, &known, &mut st, &stop_after, sweep);
+                        run_one(base, i, &known, &mut st, &stop_after, kind);
                         i += workers as u64;
                     }
                     st
@@ -584,9 +601,10 @@ fn write_evidence(
             "samples": samples,
             "simulated_runs": st.runs,
             "systematic_fault_position_sweep": {
-                "note": "thorough tier only: for each of `values` generator-drawn values, every single-fault position is enumerated (each sink chunk and capacity, each serializer call site, each access call of each presentation of the intact and of ~30 singly-damaged records, each JSON writer call, each truncation length / read-failure offset / early-EOF offset of the stored JSON, each truncation length of the stored TOML); these cases are included in legs_executed",
+                "note": "thorough tier only: for each of `values` generator-drawn values, every single-fault position is enumerated (each sink chunk and capacity, each serializer call site, each access call of each presentation of the intact and of ~30 singly-damaged records, each JSON writer call, each truncation length / read-failure offset / early-EOF offset of the stored JSON, each truncation length of the stored TOML); in addition sweep index i <= 2047 delivers, as seq and as map in both key orders, a lattice of word pairs whose high word has biased exponent i (14 mantissa patterns x 2 signs) and whose low word sits on, one and two ulps beside, and at random points around every threshold 2^(E-51..E-55), plus zeros, minimal subnormals, infinities and NaN, both signs; these cases are included in legs_executed",
                 "values": st.sweep_values,
-                "cases": st.sweep_cases
+                "cases": st.sweep_cases,
+                "quick_tier_thin_lattice_cases": st.lattice_cases
             },
             "legs_executed": st.legs,
             "legs_under_planned_faults": st.legs_faulted,
@@ -884,10 +902,19 @@ fn main() {
             break;
         }
     }
+    // quick: a thin validity-gate lattice over every biased exponent of the high word
+    if failing.is_none() && a.tier == "quick" && a.sweep.is_none() && a.runs.is_none() {
+        let b = run_batch_kind(a.seed, 2048, a.workers, &known, Kind::ThinLattice);
+        let ff = b.first_fail.clone();
+        total.merge(b);
+        if let Some((idx, fails)) = ff {
+            failing = Some((a.seed, idx, fails));
+        }
+    }
     // thorough: systematic single-fault-position sweep over sampled values
     let sweep_values = a.sweep.unwrap_or(if a.tier == "thorough" { 4000 } else { 0 });
     if failing.is_none() && sweep_values > 0 {
-        let b = run_batch_kind(a.seed, sweep_values, a.workers, &known, true);
+        let b = run_batch_kind(a.seed, sweep_values, a.workers, &known, Kind::Sweep);
         let ff = b.first_fail.clone();
         total.merge(b);
         if let Some((idx, fails)) = ff {
